@@ -980,10 +980,12 @@ def Builder.new : Kind → Builder
 
 /-! ### building tables from builders (write-fonts builders) -/
 
-/-- stable insertion sort, longer component lists first (gsub/builders.rs `LigatureSubBuilder::build`) -/
+/-- stable insertion sort, longer component lists first (gsub/builders.rs `LigatureSubBuilder::build`:
+    `sort_by_key(Reverse(len))`); `sortLigs` inserts from the right, so an element goes before the
+    elements of the same length that followed it -/
 def insertLig (x : List Glyph × Glyph) : List (List Glyph × Glyph) → List (List Glyph × Glyph)
   | [] => [x]
-  | y :: ys => if y.1.length < x.1.length then x :: y :: ys else y :: insertLig x ys
+  | y :: ys => if y.1.length ≤ x.1.length then x :: y :: ys else y :: insertLig x ys
 
 def sortLigs (ligs : List (List Glyph × Glyph)) : List (List Glyph × Glyph) := ligs.foldr insertLig []
 
